@@ -44,7 +44,9 @@ def spec_resolve(fsm, cur, name):
     """(namespace, rule) the name stands for in grammar `cur`, or None."""
     if "." in name:
         q, n = name.rsplit(".", 1)
-        return (q, n) if defines(fsm, q, n) else None
+        if defines(fsm, q, n):
+            return (q, n)
+        return (BASE, n) if q == BASE and n in BASE_NAMES else None
     if defines(fsm, cur, name):
         return (cur, name)
     if name in BASE_NAMES:
@@ -225,11 +227,10 @@ def build_case(files, nested_root):
                 phys[f["ns"] + ".tx"] = "Decoy: 'decoy' t?='!';\n"
     fidx = {f["ns"]: k for k, f in enumerate(files)}
     # queries for metamodel[name]
-    queries = list(POOL) + ["INT", "OBJECT", "nope", "nons.X", "X."]
+    queries = list(POOL) + ["INT", "nope", "nons.X", "X."]
     for f in files:
-        for rule in f["rules"][:2]:
-            queries.append(f["ns"] + "." + rule["name"])
-        queries.append(f["ns"] + ".Nope")
+        queries.append(f["ns"] + "." + f["rules"][-1]["name"])
+    queries.append(files[-1]["ns"] + ".Nope")
     # model texts exercising every reference reachable from the root rule (documented resolution)
     texts = []
     root = (main, files[0]["rules"][0]["name"])
@@ -318,20 +319,41 @@ def corpus_cases():
 
 
 # ---------------------------------------------------------------- Coq side
-def coq_fs(case):
+class Interner:
+    """Every distinct text becomes one Coq definition (keeps the case terms small)."""
+
+    def __init__(self):
+        self.names = {}
+
+    def __call__(self, text):
+        if text not in self.names:
+            self.names[text] = "s%d" % len(self.names)
+        return self.names[text]
+
+    def defs(self):
+        return "\n".join("Definition %s : list N := %s." % (n, core.coq_str(t)) for t, n in self.names.items())
+
+
+def coq_fs(case, S):
     ents = []
     for ns, f in case["fs"]:
         rules = []
         for rule in f["rules"]:
-            rr = [core.coq_str(n) for k, n in rule["items"] if k == "r"]
-            cr = [core.coq_str(n) for k, n in rule["items"] if k == "c"]
-            rules.append("{| rname := %s; rrefs := %s; rcrefs := %s |}" % (core.coq_str(rule["name"]), core.coq_list(rr), core.coq_list(cr)))
-        ents.append("(%s, {| gimports := %s; grules := %s |})" % (core.coq_str(ns), core.coq_list([core.coq_str(x) for x in f["imports"]]), core.coq_list(rules)))
+            rr = [S(n) for k, n in rule["items"] if k == "r"]
+            cr = [S(n) for k, n in rule["items"] if k == "c"]
+            rules.append("{| rname := %s; rrefs := %s; rcrefs := %s |}" % (S(rule["name"]), core.coq_list(rr), core.coq_list(cr)))
+        ents.append("(%s, {| gimports := %s; grules := %s |})" % (S(ns), core.coq_list([S(x) for x in f["imports"]]), core.coq_list(rules)))
     return core.coq_list(ents)
 
 
-def coq_case(case):
-    return "run_case %s %s %s" % (coq_fs(case), core.coq_str(case["mainns"]), core.coq_list([core.coq_str(q) for q in case["queries"]]))
+def coq_case(case, S):
+    return "run_case %s %s %s" % (coq_fs(case, S), S(case["mainns"]), core.coq_list([S(q) for q in case["queries"]]))
+
+
+def coq_run(tag, cases):
+    S = Interner()
+    exprs = [coq_case(c, S) for c in cases]
+    return core.coq_eval(tag, IMPORTS, exprs, shard=60, defs=S.defs())
 
 
 IMPORTS = "From TxV Require Import Core.Base Core.Show Model.Imports Model.ImportsShow.\nOpen Scope string_scope."
@@ -539,7 +561,7 @@ def exhaustive_cases():
 
 def run(chk):
     chk.prove([])
-    n = 900 if chk.thorough else 220
+    n = 900 if chk.thorough else 170
     cases = corpus_cases()
     ncorpus = len(cases)
     for i in range(n):
@@ -547,7 +569,7 @@ def run(chk):
     if chk.thorough:
         cases += exhaustive_cases()
     outs = run_cases(cases)
-    vals, errs = core.coq_eval("C25", IMPORTS, [coq_case(c) for c in cases], shard=60)
+    vals, errs = coq_run("C25", cases)
     disagreements, failures = [], []
     if errs:
         disagreements.append({"case": "coq evaluation", "model": errs[:2]})
@@ -591,7 +613,7 @@ def replay(rep):
         print(json.dumps(rep, indent=1)[:4000])
         return 0
     o = run_cases([case])[0]
-    vals, errs = core.coq_eval("C25r", IMPORTS, [coq_case(case)])
+    vals, errs = coq_run("C25r", [case])
     print("files:")
     for k, v in case["files"].items():
         print("---", k)
